@@ -386,9 +386,32 @@ def _prove(goal, facts, budget=1500, _split=None):
     return False
 
 
+def _const_bindings(facts):
+    """atom -> constant for equality facts of the form  atom - c == 0  (or c - atom == 0)."""
+    out = {}
+    for r, f in facts:
+        if r != "==" or len(f.t) > 2:
+            continue
+        atoms = [(m, v) for m, v in f.t.items() if m]
+        if len(atoms) != 1 or len(atoms[0][0]) != 1 or atoms[0][1] not in (1, -1):
+            continue
+        c = f.t.get((), 0)
+        a = atoms[0][0][0]
+        val = -c if atoms[0][1] == 1 else c
+        if val >= 0:
+            out[a] = Poly.const(val)
+    return out
+
+
 def _prove1(goal, facts, budget=1500):
     rel, p = goal
     facts = list(facts)
+    # an atom known to equal a constant is replaced by it everywhere (makes products like N * q linear when q == 1)
+    bind = _const_bindings(facts)
+    if bind:
+        p = p.subst(bind)
+        facts = [(r, f.subst(bind)) for r, f in facts]
+        facts = [(r, f) for r, f in facts if f.t]
     atoms = set(p.atoms())
     for _, f in facts:
         atoms |= f.atoms()
